@@ -100,6 +100,12 @@ fn try_variant<C: MlsConfig>(
             *out.err_kinds.entry(err_class(&e)).or_default() += 1;
             if label.starts_with("insider") {
                 *out.err_kinds.entry(format!("{label}:{}", err_class(&e))).or_default() += 1;
+                // The hook re-signs and re-MACs but keeps the old confirmation tag, which a real insider (who knows the commit
+                // secret) can recompute as well: a structurally invalid commit that is stopped only by the confirmation tag has
+                // passed every structural check.  (Dropped ciphertexts of other receivers are undetectable by design.)
+                if err_class(&e) == "InvalidConfirmationTag" && !label.contains("stale-confirmation-tag") && !label.contains("drop-ciphertexts") {
+                    out.fail("C03", format!("{rname}: {label} passed every structural check and was stopped only by the confirmation tag"));
+                }
             }
         }
     }
